@@ -13,7 +13,7 @@
    currently refused; [quiet es] = the transport never starts refusing.  With l = [] it IS Model/C14.v
    (C14_accepting_transport_is_base_model).  The run-level theorems below hold for ARBITRARY refusals (they were
    refuted for the code before /repo commits 11456f9 and 8d04b7c: findings C14-R1 / C14-R2 in notes/C14.md). *)
-From Verif Require Import Lib.Py Lib.Tactics Gen.c14_message_id Model.C14 Model.C14refuse Proofs.C14 Proofs.C14step Proofs.C14req Proofs.C14mid Proofs.C14refuse Proofs.C14drop Proofs.C14live.
+From Verif Require Import Lib.Py Lib.Tactics Gen.c14_message_id Model.C14 Model.C14refuse Proofs.C14 Proofs.C14step Proofs.C14req Proofs.C14mid Proofs.C14refuse Proofs.C14drop Proofs.C14live Proofs.C14gen.
 Import ListNotations.
 Open Scope Z_scope.
 
@@ -41,7 +41,7 @@ Print Assumptions C14_general_inv.
 (* one event with any set l of refused remotes: invariant preserved, queues balanced, no internal error *)
 Theorem C14_general_step : forall l s e, Inv s ->
   let s' := fst (step_ev l s e) in let o := snd (step_ev l s e) in
-  Inv s' /\ (forall r, backlog_of r s ++ subm r o = left r o ++ backlog_of r s') /\ (forall x, ~ In (Crash x) o).
+  Inv s' /\ (forall r, backlog_of r s ++ subm r o = left r o ++ backlog_of r s') /\ (forall x, x <> TypeError -> ~ In (Crash x) o).
 Proof. exact general_step. Qed.
 Print Assumptions C14_general_step.
 
@@ -55,10 +55,22 @@ Print Assumptions C14_inv_preserved.
 
 (* the AssertionError of _continue_backlog / send_message and the KeyErrors of _retransmit are unreachable, also with a
    transport that refuses datagrams from inside send() *)
-Theorem C14_no_internal_error : forall mid0 token0 rnd es e,
+Theorem C14_no_internal_error : forall mid0 token0 rnd es e, e <> TypeError ->
   ~ In (Crash e) (concat (snd (rrun (init mid0 token0 rnd, []) es))).
 Proof. exact general_nocrash. Qed.
 Print Assumptions C14_no_internal_error.
+(* ... but one exception outside the message layer is reachable with a refusing transport (open finding C14-R3): a
+   responder's non-last response whose datagram is refused ends the responder's pipe inside its own event callback, and
+   Pipe._add_event (pipe.py:197) then raises TypeError out of add_response.  With an accepting transport a response
+   never raises anything. *)
+Theorem C14_no_internal_error_refuted_pipe_typeerror :
+  In (Crash TypeError) (concat (snd (rrun (init 0 0 [], []) [Ev (Serve 1 0 7 0); Refuse 0 true; Ev (Respond 10 1 false 1)]))).
+Proof. exact pipe_typeerror_refuted. Qed.
+Print Assumptions C14_no_internal_error_refuted_pipe_typeerror.
+Theorem C14_respond_never_raises_accepting : forall s j k last maxre x, Inv s ->
+  ~ In (Crash x) (snd (step s (Respond j k last maxre))).
+Proof. exact respond_never_raises_accepting. Qed.
+Print Assumptions C14_respond_never_raises_accepting.
 
 (* ---- FIFO refinement, none forgotten: for every remote, the confirmable messages submitted, in order, are
    exactly those that left the queue (first transmission, or discarded when the endpoint failed), in order,
@@ -69,13 +81,16 @@ Theorem C14_fifo : forall mid0 token0 rnd es r,
 Proof. exact general_fifo. Qed.
 Print Assumptions C14_fifo.
 (* ... and a message is discarded ([Dropped]: from the queue on give-up / transport error / refusal, or because its own
-   first transmission was refused) only in a step after which no request to its remote is outstanding any more; no step
-   other than a request submission adds an outstanding request.  (Entries leave outgoing_requests only through
+   first transmission was refused) only in a step after which no request to its remote is outstanding and no responder
+   for its remote is alive any more; no step other than a request submission adds an outstanding request, none other than
+   process_request a responder.  (Entries leave outgoing_requests only through
    tm_dispatch_error / call_monitor / tm_process_response / Cancel, which emit Fail / Deliver / Cancelled for them by
    definition; that every outstanding request to the remote gets its Fail in that step is C14_dropped_when_failed.) *)
 Theorem C14_discarded_only_with_requests_failed : forall l s e, Inv s ->
-  (forall m, In (Dropped m) (snd (step_ev l s e)) -> reqs (m_remote m) (fst (step_ev l s e)) = []) /\
-  ((forall q r mt maxre, e <> Request q r mt maxre) -> forall r en, In en (reqs r (fst (step_ev l s e))) -> In en (reqs r s)).
+  (forall m, In (Dropped m) (snd (step_ev l s e)) ->
+     reqs (m_remote m) (fst (step_ev l s e)) = [] /\ served_from (m_remote m) (fst (step_ev l s e)) = []) /\
+  ((forall q r mt maxre, e <> Request q r mt maxre) -> forall r en, In en (reqs r (fst (step_ev l s e))) -> In en (reqs r s)) /\
+  ((forall k r tok mt, e <> Serve k r tok mt) -> forall v, In v (incoming_requests (fst (step_ev l s e))) -> In v (incoming_requests s)).
 Proof. exact step_ev_drop_clears. Qed.
 Print Assumptions C14_discarded_only_with_requests_failed.
 (* a refusal is, literally, the transport-error step: C14_dropped_when_failed describes what it does *)
@@ -105,9 +120,20 @@ Theorem C14_dropped_when_failed : forall s e r q, Inv s -> fails s e r = true ->
   let s' := fst (step s e) in let o := snd (step s e) in
   left r o = q /\ subm r o = [] /\ (forall m, In m q -> In (Dropped m) o) /\ (forall m b, ~ In (Tx m b) o) /\
   (forall en, In en (reqs r s) -> exists err, In (Fail (q_of en) err) o) /\
-  aget r (backlogs s') = None /\ exs r s' = [] /\ reqs r s' = [].
+  aget r (backlogs s') = None /\ exs r s' = [] /\ reqs r s' = [] /\
+  (forall v, In v (served_from r s) -> In (Ended (v_k v)) o) /\ served_from r s' = [].
 Proof. exact dropped_when_failed. Qed.
 Print Assumptions C14_dropped_when_failed.
+(* held-back messages that are not requests (CON notifications / separate responses, [m_sub m = Resp j k]) have no request
+   to fail; what "failed" means for them is that their responder is stopped: every entry of TokenManager.incoming_requests
+   for r — [respond] sends to the remote of the responder's own entry, so these are the responders whose messages wait in
+   r's queue — loses its pipe in that step ([Ended k]: handler cancelled, entry deleted).  A responder that has already
+   produced its last response is not in incoming_requests any more: nothing is left to notify. *)
+Theorem C14_dropped_response_stopped : forall s e r q, Inv s -> fails s e r = true -> aget r (backlogs s) = Some q ->
+  (forall v, In v (incoming_requests s) -> v_remote v = r -> In (Ended (v_k v)) (snd (step s e))) /\
+  served_from r (fst (step s e)) = [].
+Proof. exact dropped_response_stopped. Qed.
+Print Assumptions C14_dropped_response_stopped.
 
 (* (c) any other event — whatever it is and whichever remote it concerns — leaves every queued message queued, in
        order, behind the same outstanding message (new submissions are appended), and puts no confirmable message
@@ -178,6 +204,51 @@ Print Assumptions C14_fair_schedule_eventually.
 Theorem C14_timers_only_schedule_is_fair : forall s r, Inv s -> fair (fun _ => Fire) s r.
 Proof. exact timers_only_schedule_is_fair. Qed.
 Print Assumptions C14_timers_only_schedule_is_fair.
+
+(* ---- the per-step theorems and the liveness bound under refusals (round 5).  An event about remote r hands datagrams only
+   to r, so as long as r itself is not refused the general step is the base step, whatever else is refused; an event
+   about another remote leaves r alone even if that remote is refused.  Hence, for every remote r that is not refused: *)
+Theorem C14_general_step_about_accepted_remote : forall l r, refuses l r = false -> forall s e, Inv s -> touches s e r = true ->
+  step_ev l s e = step s e.
+Proof. exact step_ev_touched. Qed.
+Print Assumptions C14_general_step_about_accepted_remote.
+Theorem C14_general_other_remotes_untouched : forall l s e r, Inv s -> touches s e r = false ->
+  exs r (fst (step_ev l s e)) = exs r s /\ aget r (backlogs (fst (step_ev l s e))) = aget r (backlogs s) /\
+  silent r (snd (step_ev l s e)) = true.
+Proof. exact step_ev_frame. Qed.
+Print Assumptions C14_general_other_remotes_untouched.
+Theorem C14_general_released_when_acked : forall l r, refuses l r = false -> forall s e q, Inv s -> acks s e r = true ->
+  aget r (backlogs s) = Some q ->
+  let s' := fst (step_ev l s e) in let o := snd (step_ev l s e) in
+  subm r o = [] /\
+  match q with
+  | m :: rest => In (Tx m false) o /\ left r o = [m] /\ aget r (backlogs s') = Some rest /\
+                 exists x', exs r s' = [x'] /\ x_msg x' = m /\ x_counter x' = 0
+  | [] => left r o = [] /\ aget r (backlogs s') = None /\ exs r s' = []
+  end.
+Proof. exact general_released_when_acked. Qed.
+Print Assumptions C14_general_released_when_acked.
+Theorem C14_general_dropped_when_failed : forall l r, refuses l r = false -> forall s e q, Inv s -> fails s e r = true ->
+  aget r (backlogs s) = Some q -> failed_outcome r q s (fst (step_ev l s e)) (snd (step_ev l s e)).
+Proof. exact general_dropped_when_failed. Qed.
+Print Assumptions C14_general_dropped_when_failed.
+Theorem C14_general_held_otherwise : forall l r, refuses l r = false -> forall s e q, Inv s -> aget r (backlogs s) = Some q ->
+  acks s e r = false -> fails s e r = false ->
+  let s' := fst (step_ev l s e) in let o := snd (step_ev l s e) in
+  aget r (backlogs s') = Some (q ++ subm r o) /\ left r o = [] /\
+  exists x x', exs r s = [x] /\ exs r s' = [x'] /\ x_msg x' = x_msg x /\
+    (if fires_on s e r then x_counter x' = x_counter x + 1 /\ x_counter x < m_maxre (x_msg x) else x' = x).
+Proof. exact general_held_otherwise_detail. Qed.
+Print Assumptions C14_general_held_otherwise.
+(* liveness over [rrun], for every schedule in which r itself is never refused (other remotes may be refused and accepted
+   again at will): same budget, same notion of progress ([gcount] counts ACK/RST, failure and timer steps of r's exchange).
+   Residue: if r itself is refused, an attempted send to r is the transport-error step for r (C14_refusal_is_transport_error)
+   and discards the queue at once; that case split ("was a send attempted in this step?") is not carried through here. *)
+Theorem C14_general_eventually : forall es s l r k m, Inv s -> refuses l r = false -> never_refuses r es = true ->
+  nth_error (backlog_of r s) k = Some m -> (budget r k s <= gcount (s, l) es r)%nat ->
+  In m (left r (concat (snd (rrun (s, l) es)))).
+Proof. exact general_eventually_leaves. Qed.
+Print Assumptions C14_general_eventually.
 
 (* the special case of silent peers, with the explicit bound [measure s] on the number of firings *)
 Theorem C14_quiesces_when_peers_silent : forall s, Inv s ->
